@@ -202,6 +202,46 @@ def tables(repo, T):
     return out
 
 
+def deser_empty_kxp_shape(repo, T):
+    """How do the two `deserialize` overloads initialise the HIP register kxp of an EMPTY image (which stores no registers)?
+    -> True:  `if (num_coupons == 0) kxp = 2^lg_k` in both (the state of a new sketch; repaired shape)
+       False: kxp stays at its declaration value 0 in both (pinned shape: estimate +inf after further updates)
+    anything else (one overload only, another guard, another value) is a translation failure."""
+    rel = "cpc/include/cpc_sketch_impl.hpp"
+    src = T.strip_comments(T.read(repo, rel))
+    bodies = []
+    for m in re.finditer(r"cpc_sketch_alloc<A>::deserialize\s*\(([^)]*)\)\s*\{", src):
+        depth, i = 1, m.end()
+        while i < len(src) and depth:
+            depth += {"{": 1, "}": -1}.get(src[i], 0)
+            i += 1
+        bodies.append(src[m.end():i])
+    if len(bodies) != 2:
+        T.fail("%s: expected two definitions of cpc_sketch_alloc<A>::deserialize, found %d" % (rel, len(bodies)))
+        return None
+    pow2 = r"(?:std::)?ldexp\s*\(\s*1(?:\.0*)?\s*,\s*lg_k\s*\)|(?:static_cast<double>\s*\(\s*)?\(?\s*1(?:ULL|UL|U|LL|L)?\s*<<\s*lg_k\s*\)?\s*\)?|(?:std::)?pow\s*\(\s*2(?:\.0*)?\s*,\s*lg_k\s*\)"
+    shapes = []
+    for b in bodies:
+        if not re.search(r"double\s+kxp\s*=\s*0\s*;", b):
+            T.fail("%s: deserialize no longer declares `double kxp = 0;`" % rel)
+            return None
+        # every assignment to kxp that is not the declaration or a read from the image
+        assigns = [a for a in re.findall(r"(?:if\s*\(([^;{}]*?)\)\s*)?\bkxp\s*=\s*([^;]*);", b)
+                   if not re.match(r"\s*read\s*<", a[1]) and not (a[0] == "" and a[1].strip() == "0")]
+        if not assigns:
+            shapes.append(False)
+        elif len(assigns) == 1 and re.fullmatch(r"\s*(?:num_coupons\s*==\s*0|0\s*==\s*num_coupons|!\s*num_coupons)\s*", assigns[0][0] or "") \
+                and re.fullmatch(r"\s*(?:%s)\s*" % pow2, assigns[0][1]):
+            shapes.append(True)
+        else:
+            T.fail("%s: unrecognised initialisation of kxp in deserialize: %r" % (rel, assigns))
+            return None
+    if shapes[0] != shapes[1]:
+        T.fail("%s: the two deserialize overloads initialise kxp of an empty image differently (%r)" % (rel, shapes))
+        return None
+    return shapes[0]
+
+
 def lean_list(xs, per=16):
     lines = []
     for i in range(0, len(xs), per):
@@ -238,6 +278,11 @@ def generate(repo, T):
             out.append("]")
         elif kind == "nats":
             out.append("def %s : Nat := %d" % (name, v))
+        out.append("")
+    shape = deser_empty_kxp_shape(repo, T)
+    if shape is not None:
+        out.append("/-- deserialize of an EMPTY image starts with kxp = 2^lg_k (true: repaired shape) or with kxp = 0 (false: pinned shape) -/")
+        out.append("def cpc_DESER_EMPTY_KXP_IS_K : Bool := %s" % ("true" if shape else "false"))
         out.append("")
     out += ["end DSGen", ""]
     return {"Cpc.lean": "\n".join(out)}
